@@ -13,7 +13,12 @@ RULE = ("TLC explores BreakerImpl (bucket ring with lazy expiry + weighted-k acc
         "By-name rounds: 1-3 names nobody used before, 2-8 goroutines leaving a spin barrier together, the first "
         "call of goroutine g on name g mod K (first uses race inside the registry), then the identities "
         "GetBreaker hands out and the window of the registered breaker; validated once per (round, name) "
-        "against BreakerNamesTrace.tla (thorough: also through the zRPC client / server interceptors). Every "
+        "against BreakerNamesTrace.tla (thorough: also through the zRPC client / server interceptors). "
+        "Outcomes of a request include the look-alikes of the breaker's own results (returns ErrServiceUnavailable "
+        "itself / an error wrapping it / a context error on a live context, panics with ErrServiceUnavailable): "
+        "Gen2 crosses 'wrapUnavail' (thorough, Gen3: all of them) with every entry point, the random, concurrent and "
+        "burst drivers draw them among the failures. Contexts already done occur on every entry point (method, "
+        "by-name, wrapper) in every driver incl. the parallel bursts; the law makes the short-circuit mandatory. Every "
         "recorded trace is validated by TLC against Breaker.tla; distinct = distinct operation histories executed.")
 
 import os
@@ -73,6 +78,22 @@ def check(run):
     run.model_check(FAM, "BreakerReg", "BreakerRegBug.cfg", workers=w, expect="violation",
                     note="breaker built outside the write lock and stored without re-check: concurrent first users "
                          "get different breakers, calls recorded in the losers are orphaned (Accounted)")
+    run.model_check(FAM, "BreakerReg", "BreakerRegCtx.cfg", workers=w,
+                    note="by-name calls carry the caller's context: done-context calls leave no record, live ones "
+                         "exactly one, in the registered breaker; 3 goroutines x 2 calls, contexts {live, done}")
+    if thorough:
+        run.model_check(FAM, "BreakerReg", "BreakerRegBugCtx.cfg", workers=w, expect="violation",
+                        note="a by-name Ctx function that does not hand the context on: a done-context call is "
+                             "recorded (Accounted)")
+        run.model_check(FAM, "BreakerReg", "BreakerRegCtxNop.cfg", workers=w, note="contexts {live, done}, 2 names, 3 goroutines x 1 operation, NoBreakerFor racing")
+        run.model_check(FAM, "BreakerImpl", "BreakerImplMCo.cfg", workers=w,
+                        note="every entry point x context x outcome incl. the look-alikes of the breaker's own results "
+                             "(request returns / wraps / panics with ErrServiceUnavailable, context error), 3 ops")
+        run.model_check(FAM, "BreakerImpl", "BreakerImplBugCtx.cfg", workers=w, expect="violation",
+                        note="an entry point ignoring the caller's done context: the call is admitted (Allowed)")
+        run.model_check(FAM, "BreakerImpl", "BreakerImplBugOuterFb.cfg", workers=w, expect="violation",
+                        note="fallback run by an outer layer on errors.Is(err, ErrServiceUnavailable): an admitted call "
+                             "whose request returned a wrapper of it runs the fallback (Allowed)")
     if thorough:
         run.model_check(FAM, "BreakerReg", "BreakerRegNop.cfg", workers=w, note="same with NoBreakerFor racing")
         run.model_check(FAM, "BreakerReg", "BreakerRegMCt.cfg", workers=w, note="4 goroutines x 1 operation, one may NoBreakerFor")
@@ -89,9 +110,16 @@ def check(run):
                         note="successes in flight but no probe due: linearisable")
     # spec -> code: one history per distinct reachable model state, replayed with the coin loaded
     beh = []
-    for cfg, label in [("BreakerImplGen1t.cfg" if thorough else "BreakerImplGen1.cfg", "gen1"),
-                       ("BreakerImplGen2t.cfg" if thorough else "BreakerImplGen2.cfg", "gen2")]:
+    gens = [("BreakerImplGen1t.cfg" if thorough else "BreakerImplGen1.cfg", "gen1"),
+            ("BreakerImplGen2t.cfg" if thorough else "BreakerImplGen2.cfg", "gen2")]
+    if thorough:
+        # every look-alike outcome x entry point x context x coin from every window-count situation
+        # (quick: Gen2 carries "wrapUnavail"); histories ending in a plain ok / err call repeat gen2's
+        gens.append(("BreakerImplGen3t.cfg", "gen3"))
+    for cfg, label in gens:
         g = run.generate(FAM, "BreakerImpl", cfg, workers=1)
+        if label == "gen3":
+            g = [x for x in g if [o for o in x if o.get("op") == "start"][-1].get("out") not in ("ok", "err")]
         for x in g:
             run.distinct.add((label, str(x)))
         beh += g
@@ -140,8 +168,11 @@ LEVEL_TEXT = ("Exhaustive TLC model checking that the bucket ring with lazy expi
               "non-atomic accept() (BreakerRace) for linearisability of rejects; plus conformance: TLC-generated "
               "state-cover histories replayed on the real breaker and long random, sustained-failure, concurrent "
               "and parallel-burst histories validated by TLC against Breaker.tla (thorough: also through the REST, "
-              "zRPC and sqlx wrappers). By-name entry points: the registry law BreakerNames.tla (one breaker per "
-              "name, distinct names distinct breakers, every by-name call accounted in the breaker of its name), "
+              "zRPC and sqlx wrappers). A done context must short-circuit (neither admitted nor rejected) and the clauses "
+              "on admitted calls hold for every error value of the request, incl. (wrappers of) ErrServiceUnavailable. "
+              "By-name entry points: the registry law BreakerNames.tla (one breaker per "
+              "name, distinct names distinct breakers, every by-name call accounted in the breaker of its name with the "
+              "context its caller supplied), "
               "model-checked on the implementation-shaped BreakerReg.tla (RWMutex + map, every interleaving of "
               "3-4 goroutines incl. NoBreakerFor) and validated by TLC on racing first uses recorded from the "
               "real registry (BreakerNamesTrace.tla).")
